@@ -3,27 +3,25 @@ import CalicoVerif.Proofs.C44
 /-!
 C44 — Each workload interface carries exactly the state of its preferred endpoint.
 
-The full-strength statement (`IfaceStateEqSpec`: after every history every interface name carries
-exactly the chains and routes of the smallest live endpoint id claiming it, and nothing otherwise;
-hence the result depends only on the live endpoints, not on the update order) is FALSE of the
-current code: two failing shapes remain, both need a LIVE endpoint to change its interface name
-(D1 `rename_does_not_promote`, D3 `rename_onto_held_iface_keeps_old_state`; replays corpus/C44/d1…, d3…).
-D2 (stale shadow entry re-promoted) and D4 (a promotion overwrote a pending update/removal in the
-same batch) were fixed in /repo (commit "fix: endpoint manager must not resurrect or re-promote stale
-shadowed workload endpoints"); their histories are kept as regression examples
-(`d2_history_now_correct`, `d4_batch_now_correct`; corpus/C44/d2…, d4…).
+The model follows resolveWorkloadEndpoints after the four repairs made in /repo (D2/D4: commit 8ff5c1a;
+D1/D3: promote the endpoint shadowed on the OLD interface name when the active one renames away, and
+release the old interface of an endpoint that gets shadowed on its new name).  With them the
+full-strength property holds and is proved for ALL histories, renames included:
 
-Proved for ALL histories of BATCHES (any number of updates/removals per CompleteDeferredWork, processed
-in any order) in which no endpoint that is live at the start of a batch changes its interface name:
-`iface_state_eq_spec_batches_partial`, `order_independent_batches_partial` — every interface name
-carries exactly the chains of the minimum live endpoint id claiming it, routes iff that endpoint is
-admin up, nothing when no live endpoint claims it; `iface_state_eq_spec_partial` etc. are the
-single-update corollaries.  Proved for all histories whatsoever: `ifaceToID_consistent`.
+* `iface_state_eq_spec_batches`, `order_independent_batches`: histories of batches (any number of
+  updates/removals per CompleteDeferredWork, processed in ANY order): every interface name carries
+  exactly the policy chains of the smallest live endpoint id claiming it, its routes iff that endpoint
+  is admin up, nothing at all if no live endpoint claims it; the name→endpoint dispatch map is exactly
+  "the preferred live endpoint of each name"; hence the programmed state depends only on the live endpoints;
+* `iface_state_eq_spec`, `order_independent`: the same for one update per CompleteDeferredWork
+  (`IfaceStateEqSpec`, `OrderIndependent` — the statements that were refuted for the old code);
+* `d1_…`/`d2_…`/`d3_…`/`d4_…_now_correct`: the four histories that failed before the repairs
+  (replayed on the real code by corpus/C44/d1…d4).
 -/
 namespace CalicoVerif.C44
 open CalicoVerif.C18 (GoMap get set del get_set get_del)
 
-/-- The full-strength property. -/
+/-- The full-strength property (one update per CompleteDeferredWork). -/
 def IfaceStateEqSpec : Prop :=
   ∀ (ops : List Op) (name : Nat),
     get (run ops).chains name = specChains (live ops) name ∧
@@ -34,225 +32,13 @@ def OrderIndependent : Prop :=
   ∀ (ops₁ ops₂ : List Op), (∀ id, get (live ops₁) id = get (live ops₂) id) →
     ∀ name, get (run ops₁).chains name = get (run ops₂).chains name
 
-/-- D1. Rename does not promote: endpoints 0<1 both claim iface 0 (1 is shadowed); 0 moves to iface 1;
-endpoint 1 is now the only claimant of iface 0 but nothing is programmed there (and 1 stays in the
-shadowed map for ever). -/
-theorem rename_does_not_promote :
-    let ops := [Op.update 0 ⟨0, true, 1⟩, .update 1 ⟨0, true, 2⟩, .update 0 ⟨1, true, 3⟩]
-    specChains (live ops) 0 = some ⟨1, true, 2⟩ ∧ get (run ops).chains 0 = none ∧
-    get (run ops).routes 0 = none ∧ get (run ops).shadowed 1 = some ⟨0, true, 2⟩ := by decide
-
-/-- D2 (fixed): 1 is shadowed on iface 0, then updated onto free iface 1; activating it now drops its
-shadow copy, so removing 0 no longer drags 1 back to iface 0 with stale data. -/
-theorem d2_history_now_correct :
-    let ops := [Op.update 0 ⟨0, true, 1⟩, .update 1 ⟨0, true, 2⟩, .update 1 ⟨1, true, 3⟩, .remove 0]
-    get (run ops).chains 1 = specChains (live ops) 1 ∧ get (run ops).chains 1 = some ⟨1, true, 3⟩ ∧
-    get (run ops).chains 0 = none ∧ get (run ops).routes 0 = none ∧ get (run ops).shadowed 1 = none := by decide
-
-/-- D3. Rename onto a held interface keeps the old state: active endpoint 1 (iface 1) is updated to
-claim iface 0, held by the preferred endpoint 0: 1 is shadowed, but iface 1 — which no live
-endpoint uses any more — keeps 1's old chains and routes. -/
-theorem rename_onto_held_iface_keeps_old_state :
-    let ops := [Op.update 0 ⟨0, true, 1⟩, .update 1 ⟨1, true, 2⟩, .update 1 ⟨0, true, 3⟩]
-    specChains (live ops) 1 = none ∧ get (run ops).chains 1 = some ⟨1, true, 2⟩ ∧
-    get (run ops).routes 1 = some (1, 2) := by decide
-
-/-- The full-strength statement is false of the current code. -/
-theorem iface_state_eq_spec_false : ¬ IfaceStateEqSpec := by
-  intro h
-  have := (h [Op.update 0 ⟨0, true, 1⟩, .update 1 ⟨0, true, 2⟩, .update 0 ⟨1, true, 3⟩] 0).1
-  revert this
-  decide
-
-/-- …and so is order independence: the D1 history and the two plain updates leave the same live
-endpoints but different dataplane state. -/
-theorem order_independent_false : ¬ OrderIndependent := by
-  intro h
-  have hl : ∀ id, get (live [Op.update 0 ⟨0, true, 1⟩, .update 1 ⟨0, true, 2⟩, .update 0 ⟨1, true, 3⟩]) id =
-      get (live [Op.update 1 ⟨0, true, 2⟩, .update 0 ⟨1, true, 3⟩]) id := by
-    intro id
-    have e1 : live [Op.update 0 ⟨0, true, 1⟩, .update 1 ⟨0, true, 2⟩, .update 0 ⟨1, true, 3⟩] =
-        [(0, ⟨1, true, 3⟩), (1, ⟨0, true, 2⟩)] := by decide
-    have e2 : live [Op.update 1 ⟨0, true, 2⟩, .update 0 ⟨1, true, 3⟩] = [(0, ⟨1, true, 3⟩), (1, ⟨0, true, 2⟩)] := by
-      decide
-    rw [e1, e2]
-  have := h _ _ hl 0
-  revert this
-  decide
-
-/-- The name→id map only points at active endpoints that carry that name. -/
-def Consistent (m : Mgr) : Prop :=
-  ∀ name id, get m.ifaceToID name = some id → ∃ e, get m.active id = some e ∧ e.name = name
-
-theorem removeChainsOf_fields (m : Mgr) (id : Nat) :
-    (m.removeChainsOf id).ifaceToID = m.ifaceToID ∧ (m.removeChainsOf id).active = m.active := by
-  unfold Mgr.removeChainsOf; split <;> exact ⟨rfl, rfl⟩
-
-theorem consistent_remove (m : Mgr) (id : Nat) (h : Consistent m) :
-    Consistent (m.removeActiveWorkload (get m.active id) id) := by
-  intro name id' hg
-  unfold Mgr.removeActiveWorkload at hg ⊢
-  have hf := removeChainsOf_fields m id
-  cases ho : get m.active id with
-  | none =>
-    simp only [ho, hf.1, hf.2] at hg ⊢
-    obtain ⟨e, he, hn⟩ := h name id' hg
-    refine ⟨e, ?_, hn⟩
-    rw [get_del]; split
-    · rename_i heq; subst heq; rw [ho] at he; cases he
-    · exact he
-  | some o =>
-    simp only [ho, hf.1, hf.2] at hg ⊢
-    rw [get_del] at hg
-    split at hg
-    · cases hg
-    · rename_i hne
-      obtain ⟨e, he, hn⟩ := h name id' hg
-      refine ⟨e, ?_, hn⟩
-      rw [get_del]; split
-      · rename_i heq; subst heq; rw [ho] at he; cases he; exact absurd hn hne
-      · exact he
-
-theorem consistent_activate (m : Mgr) (id : Nat) (w : Ep) (h : Consistent m) :
-    Consistent (m.activate id (get m.active id) w) := by
-  intro name id' hg
-  unfold Mgr.activate at hg ⊢
-  cases ho : get m.active id with
-  | none =>
-    simp only [ho] at hg ⊢
-    rw [get_set] at hg ⊢
-    split at hg
-    · rename_i hn; cases hg; exact ⟨w, by simp, hn⟩
-    · obtain ⟨e, he, hn⟩ := h name id' hg
-      refine ⟨e, ?_, hn⟩
-      split
-      · rename_i heq; subst heq; rw [ho] at he; cases he
-      · exact he
-  | some o =>
-    have hf := removeChainsOf_fields m id
-    by_cases hne : o.name ≠ w.name
-    · simp only [ho, hne, if_true, hf.1, hf.2, ne_eq, not_false_eq_true] at hg ⊢
-      rw [get_set] at hg
-      split at hg
-      · rename_i hn; cases hg; exact ⟨w, by simp [get_set], hn⟩
-      · rw [get_del] at hg
-        split at hg
-        · cases hg
-        · rename_i hne2 hne3
-          obtain ⟨e, he, hn⟩ := h name id' hg
-          refine ⟨e, ?_, hn⟩
-          rw [get_set]; split
-          · rename_i heq; subst heq; rw [ho] at he; cases he; exact absurd hn hne3
-          · exact he
-    · have heq : o.name = w.name := by simpa using hne
-      simp only [ho, heq, ne_eq, not_true_eq_false, if_false] at hg ⊢
-      rw [get_set] at hg
-      split at hg
-      · rename_i hn; cases hg; exact ⟨w, by simp [get_set], hn⟩
-      · rename_i hne2
-        obtain ⟨e, he, hn⟩ := h name id' hg
-        refine ⟨e, ?_, hn⟩
-        rw [get_set]; split
-        · rename_i heq2; subst heq2; rw [ho] at he; cases he; exact absurd (heq ▸ hn) hne2
-        · exact he
-
-theorem consistent_shadowed (m : Mgr) (sh : GoMap Nat Ep) (h : Consistent m) :
-    Consistent { m with shadowed := sh } := h
-
-theorem consistent_process (m : Mgr) (pd : Pending) (id : Nat) (w : Option Ep) (h : Consistent m) :
-    Consistent (m.process pd id w).1 := by
-  unfold Mgr.process
-  cases w with
-  | none =>
-    simp only
-    have h1 := consistent_remove m id h
-    split
-    · split
-      · split
-        · exact consistent_shadowed _ _ (consistent_shadowed _ _ h1)
-        · exact consistent_shadowed _ _ h1
-      · exact consistent_shadowed _ _ h1
-    · exact consistent_shadowed _ _ h1
-  | some w =>
-    simp only
-    split
-    · rename_i existing hex
-      split
-      · exact consistent_shadowed _ _ h
-      · -- new endpoint takes preference
-        have hne : existing ≠ id := by
-          revert hex
-          cases get m.ifaceToID w.name with
-          | none => simp
-          | some e =>
-            simp only
-            by_cases hc : e = id
-            · simp [hc]
-            · simp only [ne_eq, hc, not_false_eq_true, if_true, Option.some.injEq]
-              intro he; exact he ▸ hc
-        have key : ∀ sh, Consistent ((({ m with shadowed := sh } : Mgr).removeActiveWorkload
-            (get m.active existing) existing).activate id (get m.active id) w) := by
-          intro sh
-          have h1 : Consistent ({ m with shadowed := sh } : Mgr) := consistent_shadowed m sh h
-          have h2 := consistent_remove ({ m with shadowed := sh } : Mgr) existing h1
-          have hold : get (({ m with shadowed := sh } : Mgr).removeActiveWorkload
-              (get m.active existing) existing).active id = get m.active id := by
-            unfold Mgr.removeActiveWorkload
-            simp only
-            rw [get_del]
-            simp only [hne, if_false]
-            have := removeChainsOf_fields ({ m with shadowed := sh } : Mgr) existing
-            split <;> simp [this.2]
-          have h3 := consistent_activate _ id w h2
-          rw [hold] at h3
-          exact h3
-        exact key _
-    · exact consistent_activate m id w h
-
-/-- **Structural invariant, all histories**: the interface-name → endpoint map only ever points at an
-ACTIVE endpoint that carries that interface name (so an interface never has the dispatch entry of
-two endpoints, of a shadowed endpoint or of a removed one). -/
-theorem ifaceToID_consistent (ops : List Op) : Consistent (run ops) := by
-  unfold run
-  suffices h : ∀ m, Consistent m → Consistent (ops.foldl Mgr.step m) by
-    apply h
-    intro name id hg
-    simp [Mgr.new] at hg
-  induction ops with
-  | nil => intro m h; exact h
-  | cons op rest ih =>
-    intro m h
-    apply ih
-    have hres : ∀ id w, Consistent (m.resolve id w) := by
-      intro id w
-      unfold Mgr.resolve
-      have h1 := consistent_process m [] id w h
-      split
-      · rename_i m' b e heq
-        have : m' = (m.process [] id w).1 := by rw [heq]
-        subst this
-        exact consistent_process _ [] b (some e) h1
-      · rename_i m' heq
-        have : m' = (m.process [] id w).1 := by rw [heq]
-        subst this
-        exact h1
-    cases op with
-    | update id w => exact hres id (some w)
-    | remove id => exact hres id none
-
-
-
-/-- **The property, for all histories of batches in which no live endpoint changes its interface
-name** — any number of updates and removals per CompleteDeferredWork, processed in ANY order: every
-interface name carries exactly the policy chains of the smallest live endpoint id claiming it, its
-routes iff that endpoint is admin up, and nothing at all if no live endpoint claims it; and the
-name→endpoint dispatch map is exactly "the preferred live endpoint of each name". -/
-theorem iface_state_eq_spec_batches_partial (bs : List Batch) (m : Mgr) (hr : ReachFrom Mgr.new bs m)
-    (h : NoRenameBsFrom [] bs) (name : Nat) :
+/-- **The property, for all histories of batches** — any number of updates and removals per
+CompleteDeferredWork, processed in ANY order, renames of live endpoints included. -/
+theorem iface_state_eq_spec_batches (bs : List Batch) (m : Mgr) (hr : ReachFrom Mgr.new bs m) (name : Nat) :
     get m.chains name = specChains (liveBs bs) name ∧
     get m.routes name = specRoutes (liveBs bs) name ∧
     get m.ifaceToID name = (preferred (liveBs bs) name).map (·.1) := by
-  obtain ⟨g, hl⟩ := good_reach bs Mgr.new [] good_new C18.nodupKeys_nil h m hr
+  obtain ⟨g, hl⟩ := good_reach bs Mgr.new [] good_new C18.nodupKeys_nil m hr
   have g' : Good m (get (liveBs bs)) [] := g
   have hl' : C18.NodupKeys (liveBs bs) := hl
   refine ⟨(chains_of_good _ _ g' hl' name).1, (chains_of_good _ _ g' hl' name).2, ?_⟩
@@ -264,18 +50,17 @@ theorem iface_state_eq_spec_batches_partial (bs : List Batch) (m : Mgr) (hr : Re
     obtain ⟨e, hact, _⟩ := g'.b1 name i hi
     simp [g'.a1 i e hact]
 
-/-- **Order independence, same domain**: two rename-free batch histories (whatever the order inside the
-batches and however the updates are grouped into batches) that leave the same live endpoints leave
-the same chains and routes on every interface. -/
-theorem order_independent_batches_partial (bs₁ bs₂ : List Batch) (m₁ m₂ : Mgr)
+/-- **Order independence for batch histories**: two histories (whatever the order inside the batches
+and however the updates are grouped into batches) that leave the same live endpoints leave the same
+chains and routes on every interface. -/
+theorem order_independent_batches (bs₁ bs₂ : List Batch) (m₁ m₂ : Mgr)
     (r₁ : ReachFrom Mgr.new bs₁ m₁) (r₂ : ReachFrom Mgr.new bs₂ m₂)
-    (h₁ : NoRenameBsFrom [] bs₁) (h₂ : NoRenameBsFrom [] bs₂)
     (hl : ∀ id, get (liveBs bs₁) id = get (liveBs bs₂) id) (name : Nat) :
     get m₁.chains name = get m₂.chains name ∧ get m₁.routes name = get m₂.routes name := by
-  obtain ⟨_, n1⟩ := good_reach bs₁ Mgr.new [] good_new C18.nodupKeys_nil h₁ m₁ r₁
-  obtain ⟨_, n2⟩ := good_reach bs₂ Mgr.new [] good_new C18.nodupKeys_nil h₂ m₂ r₂
-  have e1 := iface_state_eq_spec_batches_partial bs₁ m₁ r₁ h₁ name
-  have e2 := iface_state_eq_spec_batches_partial bs₂ m₂ r₂ h₂ name
+  obtain ⟨_, n1⟩ := good_reach bs₁ Mgr.new [] good_new C18.nodupKeys_nil m₁ r₁
+  obtain ⟨_, n2⟩ := good_reach bs₂ Mgr.new [] good_new C18.nodupKeys_nil m₂ r₂
+  have e1 := iface_state_eq_spec_batches bs₁ m₁ r₁ name
+  have e2 := iface_state_eq_spec_batches bs₂ m₂ r₂ name
   rw [e1.1, e2.1, e1.2.1, e2.2.1]
   unfold specChains specRoutes preferred
   have hb : bestShadowed (liveBs bs₁) name = bestShadowed (liveBs bs₂) name :=
@@ -285,50 +70,36 @@ theorem order_independent_batches_partial (bs₁ bs₂ : List Batch) (m₁ m₂ 
   | none => exact ⟨rfl, rfl⟩
   | some i => simp [hl i]
 
-/-! #### single-update corollaries -/
+/-! #### one update per CompleteDeferredWork -/
 
-theorem ra_nil (f : Nat) (m : Mgr) : Mgr.resolveAll f m [] = [m] := by cases f <;> rfl
-
-theorem process_update_queues_nothing (m : Mgr) (pd : Pending) (id : Nat) (w : Ep) :
-    (m.process pd id (some w)).2 = none := by
-  unfold Mgr.process
-  simp only
-  split
-  · split <;> rfl
-  · rfl
-
-theorem ra_one (f : Nat) (m : Mgr) (id : Nat) (w : Option Ep) :
-    Mgr.resolveAll (f + 1) m [(id, w)] = Mgr.resolveAll f (m.process [] id w).1
-      (match (m.process [] id w).2 with
-       | some (b, e) => [(b, some e)]
-       | none => []) := by
-  simp only [Mgr.resolveAll, List.flatMap_cons, List.flatMap_nil, List.append_nil]
-  have hd : C18.del [(id, w)] id = [] := by simp [C18.del]
-  rw [hd]
-  first
-    | rfl
-    | (congr 1
-       cases (m.process [] id w).2 with
-       | none => rfl
-       | some be => simp [C18.set, C18.del])
+theorem ra_single (fuel : Nat) : ∀ (m : Mgr) (P : Pending), P.length ≤ 1 →
+    Mgr.resolveAll fuel m P = [Mgr.resolveLoop fuel m P] := by
+  induction fuel with
+  | zero => intro m P _; rfl
+  | succ fuel ih =>
+    intro m P hP
+    cases P with
+    | nil => rfl
+    | cons q ps =>
+      have hps : ps = [] := by
+        cases ps with
+        | nil => rfl
+        | cons _ _ => simp at hP
+      subst hps
+      simp only [Mgr.resolveAll, Mgr.resolveLoop, List.flatMap_cons, List.flatMap_nil, List.append_nil]
+      apply ih
+      have hd : C18.del [q] q.1 = [] := by simp [C18.del]
+      rw [hd]
+      cases (m.process [] q.1 q.2).2 with
+      | none => simp
+      | some be => simp [C18.set, C18.del]
 
 /-- With ONE pending update the all-orders semantics is the single-update `resolve`. -/
 theorem batch_single (m : Mgr) (id : Nat) (w : Option Ep) : m.batch [(id, w)] = [m.resolve id w] := by
   have hp : mkPending [(id, w)] = [(id, w)] := by simp [mkPending, C18.set, C18.del]
-  unfold Mgr.batch
+  unfold Mgr.batch Mgr.resolve
   simp only [hp, List.length_cons, List.length_nil]
-  rw [show 2 * (0 + 1) + 2 = 3 + 1 from rfl, ra_one]
-  unfold Mgr.resolve
-  cases h : (m.process [] id w).2 with
-  | none =>
-    have : m.process [] id w = ((m.process [] id w).1, none) := by rw [← h]
-    rw [this]; simp only [ra_nil]
-  | some be =>
-    obtain ⟨b, e⟩ := be
-    have : m.process [] id w = ((m.process [] id w).1, some (b, e)) := by rw [← h]
-    rw [this]; simp only
-    rw [ra_one, process_update_queues_nothing]
-    simp only [ra_nil]
+  exact ra_single _ m _ (by simp)
 
 theorem reach_run (ops : List Op) (m : Mgr) : ReachFrom m (ops.map Op.toBatch) (ops.foldl Mgr.step m) := by
   induction ops generalizing m with
@@ -350,88 +121,69 @@ theorem live_eq_liveBs (ops : List Op) : liveBs (ops.map Op.toBatch) = live ops 
   | nil => rfl
   | cons op r ih => simp only [List.map_cons, List.foldl_cons, liveB_toBatch, ih]
 
-theorem noRename_toBatches (ops : List Op) (l : GoMap Nat Ep) (h : NoRenameFrom l ops) :
-    NoRenameBsFrom l (ops.map Op.toBatch) := by
-  induction ops generalizing l with
-  | nil => trivial
-  | cons op r ih =>
-    cases op with
-    | update id w =>
-      refine ⟨?_, ?_⟩
-      · intro id' w' hg e he
-        simp only [Op.toBatch, mkPending, List.foldl_cons, List.foldl_nil, C18.set, C18.del, List.filter_nil,
-          C18.get] at hg
-        split at hg
-        · rename_i hid; subst hid; cases hg; exact h.1 e he
-        · cases hg
-      · rw [liveB_toBatch]; exact ih _ h.2
-    | remove id =>
-      refine ⟨?_, ?_⟩
-      · intro id' w' hg e he
-        simp only [Op.toBatch, mkPending, List.foldl_cons, List.foldl_nil, C18.set, C18.del, List.filter_nil,
-          C18.get] at hg
-        split at hg <;> cases hg
-      · rw [liveB_toBatch]; exact ih _ h
-
-/-- The single-update form: histories with one endpoint update per CompleteDeferredWork. -/
-theorem iface_state_eq_spec_partial (ops : List Op) (h : NoRename ops) (name : Nat) :
-    get (run ops).chains name = specChains (live ops) name ∧
-    get (run ops).routes name = specRoutes (live ops) name := by
-  have := iface_state_eq_spec_batches_partial (ops.map Op.toBatch) (run ops) (reach_run ops Mgr.new)
-    (noRename_toBatches ops [] h) name
+/-- **The full-strength property holds** (every history, renames included). -/
+theorem iface_state_eq_spec : IfaceStateEqSpec := by
+  intro ops name
+  have := iface_state_eq_spec_batches (ops.map Op.toBatch) (run ops) (reach_run ops Mgr.new) name
   rw [live_eq_liveBs] at this
   exact ⟨this.1, this.2.1⟩
 
-theorem dispatch_eq_spec_partial (ops : List Op) (h : NoRename ops) (name : Nat) :
+theorem dispatch_eq_spec (ops : List Op) (name : Nat) :
     get (run ops).ifaceToID name = (preferred (live ops) name).map (·.1) := by
-  have := iface_state_eq_spec_batches_partial (ops.map Op.toBatch) (run ops) (reach_run ops Mgr.new)
-    (noRename_toBatches ops [] h) name
+  have := iface_state_eq_spec_batches (ops.map Op.toBatch) (run ops) (reach_run ops Mgr.new) name
   rw [live_eq_liveBs] at this
   exact this.2.2
 
-theorem order_independent_partial (ops₁ ops₂ : List Op) (h₁ : NoRename ops₁) (h₂ : NoRename ops₂)
-    (hl : ∀ id, get (live ops₁) id = get (live ops₂) id) (name : Nat) :
-    get (run ops₁).chains name = get (run ops₂).chains name ∧
-    get (run ops₁).routes name = get (run ops₂).routes name := by
-  apply order_independent_batches_partial (ops₁.map Op.toBatch) (ops₂.map Op.toBatch) _ _
-    (reach_run ops₁ Mgr.new) (reach_run ops₂ Mgr.new) (noRename_toBatches ops₁ [] h₁) (noRename_toBatches ops₂ [] h₂)
-  intro id; rw [live_eq_liveBs, live_eq_liveBs]; exact hl id
+/-- **Order independence holds.** -/
+theorem order_independent : OrderIndependent := by
+  intro ops₁ ops₂ hl name
+  exact (order_independent_batches (ops₁.map Op.toBatch) (ops₂.map Op.toBatch) _ _
+    (reach_run ops₁ Mgr.new) (reach_run ops₂ Mgr.new)
+    (by intro id; rw [live_eq_liveBs, live_eq_liveBs]; exact hl id) name).1
 
-/-- Non-vacuity of the no-rename domain: a history with shadowing, an admin-down update, a removal that
-promotes, and a removal + re-creation under another interface name. -/
-example : NoRename [Op.update 2 ⟨0, true, 1⟩, .update 0 ⟨0, true, 2⟩, .update 1 ⟨0, false, 3⟩, .remove 0,
-    .remove 2, .update 2 ⟨1, true, 4⟩] := by
-  simp [NoRename, NoRenameFrom, C18.get, C18.set, C18.del]
+/-- The name→id map only points at an ACTIVE endpoint that carries that interface name. -/
+def Consistent (m : Mgr) : Prop :=
+  ∀ name id, get m.ifaceToID name = some id → ∃ e, get m.active id = some e ∧ e.name = name
 
-/-! ### Several updates pending at once -/
+theorem ifaceToID_consistent (ops : List Op) : Consistent (run ops) := by
+  obtain ⟨g, _⟩ := good_reach (ops.map Op.toBatch) Mgr.new [] good_new C18.nodupKeys_nil (run ops) (reach_run ops Mgr.new)
+  exact g.b1
 
-/-- D4 (fixed): endpoints 0<1 share iface 0 (1 shadowed); both are removed before ONE
-CompleteDeferredWork.  The promotion scan now skips endpoint 1 (it has its own removal pending), so
-whatever the processing order nothing stays programmed. -/
+/-! ### The histories that failed before the repairs, and non-vacuity -/
+
+/-- D1 history: 0<1 both claim iface 0; 0 moves to iface 1: endpoint 1 is promoted on iface 0. -/
+theorem d1_history_now_correct :
+    let ops := [Op.update 0 ⟨0, true, 1⟩, .update 1 ⟨0, true, 2⟩, .update 0 ⟨1, true, 3⟩]
+    get (run ops).chains 0 = some ⟨1, true, 2⟩ ∧ get (run ops).chains 1 = some ⟨0, true, 3⟩ ∧
+    get (run ops).routes 0 = some (1, 2) ∧ (run ops).shadowed = [] := by decide
+
+/-- D2 history: 1 shadowed on iface 0, updated onto free iface 1, then 0 removed: 1 stays on iface 1. -/
+theorem d2_history_now_correct :
+    let ops := [Op.update 0 ⟨0, true, 1⟩, .update 1 ⟨0, true, 2⟩, .update 1 ⟨1, true, 3⟩, .remove 0]
+    get (run ops).chains 1 = some ⟨1, true, 3⟩ ∧ get (run ops).chains 0 = none ∧
+    get (run ops).routes 0 = none ∧ get (run ops).shadowed 1 = none := by decide
+
+/-- D3 history: active endpoint 1 (iface 1) is renamed onto iface 0 held by 0: it is shadowed AND iface 1
+is released. -/
+theorem d3_history_now_correct :
+    let ops := [Op.update 0 ⟨0, true, 1⟩, .update 1 ⟨1, true, 2⟩, .update 1 ⟨0, true, 3⟩]
+    get (run ops).chains 1 = none ∧ get (run ops).routes 1 = none ∧
+    get (run ops).shadowed 1 = some ⟨0, true, 3⟩ ∧ get (run ops).active 1 = none := by decide
+
+/-- D4 history: endpoints 0<1 share iface 0; both removed before ONE CompleteDeferredWork: whatever the
+processing order nothing stays programmed. -/
 theorem d4_batch_now_correct :
     let m := run [Op.update 0 ⟨0, true, 1⟩, .update 1 ⟨0, true, 2⟩]
     let outs := m.batch [(0, none), (1, none)]
     outs.length = 2 ∧ (outs.map (fun o => get o.chains 0)) = [none, none] ∧
     (outs.map (fun o => get o.active 1)) = [none, none] ∧ (outs.map (fun o => o.shadowed)) = [[], []] := by decide
 
-/-- Non-vacuity of the batch domain: a rename-free batch history with a multi-update batch that removes
-the holder and updates the endpoint shadowed behind it. -/
-example : NoRenameBsFrom [] [[(0, some ⟨0, true, 1⟩), (1, some ⟨0, true, 2⟩), (2, some ⟨0, true, 3⟩)],
-    [(0, none), (1, some ⟨0, false, 4⟩)]] := by
-  refine ⟨?_, ?_, trivial⟩
-  · intro id w h e he; simp [C18.get] at he
-  · intro id w h e he
-    simp [mkPending, C18.get, C18.set, C18.del] at h
-    simp [liveB, mkPending, applyEntry, C18.get, C18.set, C18.del] at he
-    by_cases h1 : 1 = id
-    · subst h1; simp at h he; subst h; subst he; rfl
-    · simp [h1] at h
-
-/-- Where shadowing works (no renames): 0<1<2 all claim iface 0; removing the active one promotes the
-smallest waiting id; an admin-down endpoint gets chains but no routes. -/
+/-- A history with shadowing, an admin-down endpoint, promotion on removal, a rename that promotes and a
+rename onto a held interface. -/
 example :
-    let ops := [Op.update 2 ⟨0, true, 1⟩, .update 0 ⟨0, true, 2⟩, .update 1 ⟨0, false, 3⟩, .remove 0]
-    get (run ops).chains 0 = specChains (live ops) 0 ∧ get (run ops).chains 0 = some ⟨1, false, 3⟩ ∧
-    get (run ops).routes 0 = none ∧ get (run ops).shadowed 2 = some ⟨0, true, 1⟩ := by decide
+    let ops := [Op.update 2 ⟨0, true, 1⟩, .update 0 ⟨0, true, 2⟩, .update 1 ⟨0, false, 3⟩, .remove 0,
+      .update 1 ⟨1, true, 4⟩, .update 2 ⟨1, true, 5⟩]
+    get (run ops).chains 0 = specChains (live ops) 0 ∧ get (run ops).chains 1 = some ⟨1, true, 4⟩ ∧
+    get (run ops).chains 0 = none ∧ get (run ops).shadowed 2 = some ⟨1, true, 5⟩ := by decide
 
 end CalicoVerif.C44
